@@ -195,32 +195,43 @@ theorem raw_exact_rat (b sh N D L : Nat) (hD : 0 < D) (hb54 : 2 ^ 54 ≤ b)
 
 /-- from the pipeline error bound to "within 1/32 of a unit" (`G/8` with `G` a quarter unit) once the big
 integer has at least 65 bits -/
-theorem eighth_of_error (b N D k G : Nat) (hD : 0 < D) (hk : k ≤ 13) (hG : 2 ^ 10 ≤ G) (hb : b < 2 ^ 55 * G)
+theorem eighth_of_error (b N D k G : Nat) (hD : 0 < D) (hk : k ≤ 13) (hG : 1024 * k + 1 ≤ (128 - 8 * k) * G)
+    (hb : b < 2 ^ 55 * G)
     (e1 : b * D * 2 ^ 62 ≤ N * (2 ^ 62 + k)) (e2 : N * 2 ^ 62 ≤ (b + k) * D * (2 ^ 62 + k)) :
     8 * (b * D) < 8 * N + G * D ∧ 8 * N < 8 * (b * D) + G * D := by
-  have hk2 : k * k ≤ 169 := by
-    have : k * k ≤ 13 * k := Nat.mul_le_mul_right _ hk
-    omega
-  have hbk : b * k ≤ 13 * b := by rw [Nat.mul_comm]; exact Nat.mul_le_mul_right _ hk
-  have hk62 : k * 2 ^ 62 ≤ 13 * 2 ^ 62 := Nat.mul_le_mul_right _ hk
+  have hG0 : 0 < G := by
+    rcases Nat.eq_zero_or_pos G with h | h
+    · subst h; simp at hG
+    · exact h
+  have hkk : k * k ≤ 13 * k := Nat.mul_le_mul_right _ hk
+  have hbk : b * k ≤ 2 ^ 55 * G * k := Nat.mul_le_mul_right _ (Nat.le_of_lt hb)
   -- (2): 8(b+k)(2^62+k) < (8b+G)·2^62
   have A : 8 * ((b + k) * (2 ^ 62 + k)) < (8 * b + G) * 2 ^ 62 := by
-    have e : 8 * ((b + k) * (2 ^ 62 + k)) = 8 * b * 2 ^ 62 + 8 * (b * k + k * 2 ^ 62 + k * k) := by ring
+    have e : 8 * ((b + k) * (2 ^ 62 + k)) = 8 * b * 2 ^ 62 + (8 * (b * k) + 8 * (k * 2 ^ 62) + 8 * (k * k)) := by ring
     have e' : (8 * b + G) * 2 ^ 62 = 8 * b * 2 ^ 62 + G * 2 ^ 62 := by ring
     rw [e, e']
-    have s1 : b * k + k * 2 ^ 62 + k * k ≤ 13 * b + 13 * 2 ^ 62 + 169 :=
-      Nat.add_le_add (Nat.add_le_add hbk hk62) hk2
-    have s2 : 8 * (13 * b + 13 * 2 ^ 62 + 169) < G * 2 ^ 62 := by
-      have h1 : 13 * b ≤ 13 * (2 ^ 55 * G) := Nat.mul_le_mul_left _ (Nat.le_of_lt hb)
-      have h3 : G * 2 ^ 62 = 104 * (2 ^ 55 * G) + 24 * 2 ^ 55 * G := by
-        rw [show (2 : Nat) ^ 62 = 128 * 2 ^ 55 by decide]; ring
-      have h4 : 8 * (13 * 2 ^ 62 + 169) < 24 * 2 ^ 55 * 2 ^ 10 := by decide
-      have h5 : 24 * 2 ^ 55 * 2 ^ 10 ≤ 24 * 2 ^ 55 * G := Nat.mul_le_mul_left _ hG
-      have h6 : 8 * (13 * b + 13 * 2 ^ 62 + 169) = 104 * b + 8 * (13 * 2 ^ 62 + 169) := by ring
-      have h7 : 104 * b ≤ 104 * (2 ^ 55 * G) := Nat.mul_le_mul_left _ (Nat.le_of_lt hb)
-      rw [h6, h3]
-      exact Nat.add_lt_add_of_le_of_lt h7 (Nat.lt_of_lt_of_le h4 h5)
-    exact Nat.add_lt_add_left (Nat.lt_of_le_of_lt (Nat.mul_le_mul_left _ s1) s2) _
+    apply Nat.add_lt_add_left
+    -- 8bk + 8k·2^62 + 8k² < G·2^62, from (128 − 8k)·G ≥ 1024k + 1
+    have h8k : 8 * k ≤ 104 := by omega
+    obtain ⟨w, hw⟩ : ∃ w, 128 = 8 * k + w := ⟨128 - 8 * k, by omega⟩
+    have hwG : 1024 * k + 1 ≤ w * G := by rw [show 128 - 8 * k = w by omega] at hG; exact hG
+    have s1 : 8 * (b * k) ≤ 8 * k * (2 ^ 55 * G) := by
+      calc 8 * (b * k) ≤ 8 * (2 ^ 55 * G * k) := Nat.mul_le_mul_left _ hbk
+        _ = 8 * k * (2 ^ 55 * G) := by ring
+    have s2 : 8 * (k * 2 ^ 62) + 8 * (k * k) < (1024 * k + 1) * 2 ^ 55 := by
+      have : 8 * (k * k) ≤ 104 * k := by omega
+      have e2 : 8 * (k * 2 ^ 62) = 1024 * k * 2 ^ 55 := by rw [show (2 : Nat) ^ 62 = 128 * 2 ^ 55 by decide]; ring
+      have e3 : (1024 * k + 1) * 2 ^ 55 = 1024 * k * 2 ^ 55 + 2 ^ 55 := by ring
+      have : 104 * k < 2 ^ 55 := by
+        have : 104 * k ≤ 104 * 13 := Nat.mul_le_mul_left _ hk
+        have : (104 : Nat) * 13 < 2 ^ 55 := by decide
+        omega
+      omega
+    have s3 : (1024 * k + 1) * 2 ^ 55 ≤ w * G * 2 ^ 55 := Nat.mul_le_mul_right _ hwG
+    have e4 : G * 2 ^ 62 = 8 * k * (2 ^ 55 * G) + w * G * 2 ^ 55 := by
+      rw [show (2 : Nat) ^ 62 = 128 * 2 ^ 55 by decide, hw]; ring
+    rw [e4]
+    omega
   have P2 : 8 * N < 8 * (b * D) + G * D := by
     have : 8 * N * 2 ^ 62 < (8 * (b * D) + G * D) * 2 ^ 62 := by
       calc 8 * N * 2 ^ 62 = 8 * (N * 2 ^ 62) := by ring
@@ -245,7 +256,7 @@ theorem eighth_of_error (b N D k G : Nat) (hD : 0 < D) (hk : k ≤ 13) (hG : 2 ^
       _ ≤ 104 * (2 ^ 55 * G + G) * D :=
           Nat.mul_le_mul_right _ (Nat.mul_le_mul_left _ (by omega))
       _ = (104 * (2 ^ 55 + 1)) * (G * D) := by ring
-      _ < 2 ^ 62 * (G * D) := Nat.mul_lt_mul_of_pos_right (by decide) (Nat.mul_pos (by omega) hD)
+      _ < 2 ^ 62 * (G * D) := Nat.mul_lt_mul_of_pos_right (by decide) (Nat.mul_pos hG0 hD)
       _ = G * D * 2 ^ 62 := by ring
   have : 8 * (b * D) * 2 ^ 62 < (8 * N + G * D) * 2 ^ 62 := by
     calc 8 * (b * D) * 2 ^ 62 = 8 * (b * D * 2 ^ 62) := by ring
@@ -319,10 +330,11 @@ end Qentem.Round
 namespace Qentem.StrToNum
 open Qentem.Round Qentem.Generated.StrToNum
 
-/-- **Negative-exponent scaling is correctly rounded under the margin**: `2^(x/27+1) ≤ num` makes the
-big integer at least 65 bits wide, so the pipeline is within 1/32 ulp; with the exact value 1/32 ulp away
+/-- **Negative-exponent scaling is correctly rounded under the margin**: `2^(x/27+1) ≤ num` (or `2^(x/27) ≤ 2·num` when `x < 216`) makes the
+big integer wide enough, so the pipeline is within 1/32 ulp; with the exact value 1/32 ulp away
 from the half-way points the returned pattern is `nearestMag num (10^x)`. -/
-theorem powerOfNegativeTen_exact (num x : Nat) (hn0 : 0 < num) (hnx : 2 ^ (x / 27 + 1) ≤ num) (hn : num < 2 ^ 64)
+theorem powerOfNegativeTen_exact (num x : Nat) (hn0 : 0 < num)
+    (hnx : (x < 216 ∧ 2 ^ (x / 27) ≤ 2 * num) ∨ 2 ^ (x / 27 + 1) ≤ num) (hn : num < 2 ^ 64)
     (hx : x ≤ 350) (hm : MarginPair (roundPair num (10 ^ x)).1 (roundPair num (10 ^ x)).2) :
     powerOfNegativeTen num x = some (nearestMag num (10 ^ x)) := by
   obtain ⟨b, S, k, hps, hk, hS, e1, e2⟩ := negScale_error num x hn (by omega)
@@ -330,16 +342,43 @@ theorem powerOfNegativeTen_exact (num x : Nat) (hn0 : 0 < num) (hnx : 2 ^ (x / 2
   have hk13 : k ≤ 13 := by omega
   have hlow := negScale_lower num x b _ hn hps
   have hb256 := negScale_lt num x b _ hps
-  have hb64 : 2 ^ 64 ≤ b := by
-    have h2 : 2 ^ (x / 27 + 1) * 2 ^ 64 ≤ num * 2 ^ 64 := Nat.mul_le_mul_right _ hnx
-    have h4 : 2 ^ (x / 27 + 1) * 2 ^ 64 < 2 ^ (x / 27 + 1) * (b + 1) := by omega
-    have := Nat.lt_of_mul_lt_mul_left h4
-    omega
-  have hb0 : b ≠ 0 := by intro h; subst h; exact absurd hb64 (by decide)
+  -- the big integer has at least 63 bits (65 when there may be up to 13 steps)
+  have hbig : (2 ^ 62 ≤ b ∧ k ≤ 8) ∨ 2 ^ 64 ≤ b := by
+    rcases hnx with ⟨hx216, h2⟩ | h2
+    · left
+      constructor
+      · have h3 : 2 ^ (x / 27 + 1) * 2 ^ 62 ≤ num * 2 ^ 64 := by
+          calc 2 ^ (x / 27 + 1) * 2 ^ 62 = 2 ^ (x / 27) * 2 ^ 63 := by rw [Nat.pow_succ]; ring
+            _ ≤ 2 * num * 2 ^ 63 := Nat.mul_le_mul_right _ h2
+            _ = num * 2 ^ 64 := by rw [show (2 : Nat) ^ 64 = 2 * 2 ^ 63 by decide]; ring
+        have h4 : 2 ^ (x / 27 + 1) * 2 ^ 62 < 2 ^ (x / 27 + 1) * (b + 1) := by omega
+        have := Nat.lt_of_mul_lt_mul_left h4
+        omega
+      · omega
+    · right
+      have h3 : 2 ^ (x / 27 + 1) * 2 ^ 64 ≤ num * 2 ^ 64 := Nat.mul_le_mul_right _ h2
+      have h4 : 2 ^ (x / 27 + 1) * 2 ^ 64 < 2 ^ (x / 27 + 1) * (b + 1) := by omega
+      have := Nat.lt_of_mul_lt_mul_left h4
+      omega
+  have hb62 : 2 ^ 62 ≤ b := by
+    rcases hbig with h | h
+    · exact h.1
+    · exact Nat.le_trans (by decide) h
+  have hb0 : b ≠ 0 := by intro h; subst h; exact absurd hb62 (by decide)
   obtain ⟨hlo, hhi⟩ := log2_bounds b hb0
-  have hbit64 : 64 ≤ Nat.log2 b := (Nat.le_log2 hb0).2 hb64
+  have hbit62 : 62 ≤ Nat.log2 b := (Nat.le_log2 hb0).2 hb62
   have hD : 0 < 5 ^ x := Nat.pow_pos (by decide)
-  have hG : 2 ^ 10 ≤ 2 ^ (Nat.log2 b - 54) := Nat.pow_le_pow_right (by decide) (by omega)
+  have hG : 1024 * k + 1 ≤ (128 - 8 * k) * 2 ^ (Nat.log2 b - 54) := by
+    rcases hbig with ⟨_, hk8⟩ | h64
+    · have h1 : 2 ^ 8 ≤ 2 ^ (Nat.log2 b - 54) := Nat.pow_le_pow_right (by decide) (by omega)
+      have h2 : 64 ≤ 128 - 8 * k := by omega
+      calc 1024 * k + 1 ≤ 64 * 2 ^ 8 := by omega
+        _ ≤ (128 - 8 * k) * 2 ^ (Nat.log2 b - 54) := Nat.mul_le_mul h2 h1
+    · have hbit64 : 64 ≤ Nat.log2 b := (Nat.le_log2 hb0).2 h64
+      have h1 : 2 ^ 10 ≤ 2 ^ (Nat.log2 b - 54) := Nat.pow_le_pow_right (by decide) (by omega)
+      have h2 : 24 ≤ 128 - 8 * k := by omega
+      calc 1024 * k + 1 ≤ 24 * 2 ^ 10 := by omega
+        _ ≤ (128 - 8 * k) * 2 ^ (Nat.log2 b - 54) := Nat.mul_le_mul h2 h1
   have hbG : b < 2 ^ 55 * 2 ^ (Nat.log2 b - 54) := by
     rw [← Nat.pow_add, show 55 + (Nat.log2 b - 54) = Nat.log2 b + 1 by omega]; exact hhi
   obtain ⟨q1, q2⟩ := eighth_of_error b (num * 2 ^ (64 + S)) (5 ^ x) k (2 ^ (Nat.log2 b - 54)) hD hk13 hG hbG e1 e2
@@ -353,7 +392,7 @@ theorem powerOfNegativeTen_exact (num x : Nat) (hn0 : 0 < num) (hnx : 2 ^ (x / 2
     have h1 : (b - G) * 5 ^ x ≤ N := by
       rw [Nat.sub_mul]; omega
     have h2 : 2 ^ 58 ≤ b - G := by
-      have : (2 : Nat) ^ 64 = 2 ^ 58 + 63 * 2 ^ 58 := by decide
+      have : (2 : Nat) ^ 62 = 2 ^ 58 + 15 * 2 ^ 58 := by decide
       omega
     exact Nat.le_trans (Nat.mul_le_mul_right _ h2) h1
   have hq0 : N / 5 ^ x ≠ 0 := by
@@ -384,7 +423,7 @@ theorem powerOfNegativeTen_exact (num x : Nat) (hn0 : 0 < num) (hnx : 2 ^ (x / 2
       (by rw [hshx, hN]; exact hL1) (by rw [hshx, hN]; exact hL2)).1 hm
     rw [hshx, hN] at this
     exact this
-  have hexact := raw_exact_rat b (x + 64 + S) N (5 ^ x) L hD (Nat.le_trans (by decide) hb64)
+  have hexact := raw_exact_rat b (x + 64 + S) N (5 ^ x) L hD (Nat.le_trans (by decide) hb62)
     (by rw [hGd]; exact q1) (by rw [hGd]; exact q2) hL1 hL2 hm'
   have hspec : nearestMag num (10 ^ x) = cap (ratRaw N (5 ^ x) (x + 64 + S) L) := by
     rw [h10]
@@ -392,7 +431,7 @@ theorem powerOfNegativeTen_exact (num x : Nat) (hn0 : 0 < num) (hnx : 2 ^ (x / 2
       (by rw [hshx, hN]; exact hL1) (by rw [hshx, hN]; exact hL2)
     rw [hshx, hN] at this
     exact this
-  have hb53 : 2 ^ 53 ≤ b := Nat.le_trans (by decide) hb64
+  have hb53 : 2 ^ 53 ≤ b := Nat.le_trans (by decide) hb62
   have hcap : cap (codeRawNeg b (x + 64 + S)) = codeRawNeg b (x + 64 + S) := by
     have := codeRawNeg_lt_inf b (x + 64 + S) hb53 hb256
     unfold cap; simp [Nat.not_le.2 this]
